@@ -124,6 +124,27 @@ theorem norm_writable (be : Bool) (vr : VR) (v : PValue) (hv : ValidFor be vr v)
     · exact absurd h h4
     · exact absurd h h5
 
+/-- the normal form of a valid value is a valid value (with the same written bytes) -/
+theorem normValue_valid (be : Bool) (vr : VR) (v : PValue) (hv : ValidFor be vr v) :
+    ValidFor be vr (normValue be vr v) := by
+  obtain ⟨ha, hd⟩ := norm_writable be vr v hv
+  have hpn := paddedValue_norm be vr v hv
+  refine ⟨hv.1, ha, hd, ?_⟩
+  rw [hpn]
+  obtain ⟨_, _, _, hcls⟩ := hv
+  by_cases h0 : paddedValue be vr v = []
+  · left; exact h0
+  rcases hcls with h | h | h | hnum
+  · left; exact h
+  · right; left; exact h
+  · right; right; left; exact h
+  · right; right; right
+    rw [norm_num h0 hnum]
+    cases vr <;> cases v <;> simp [NumericOk] at hnum <;> simp only [dropTxt, NumericOk] <;>
+      first
+        | exact hnum
+        | (intro p hp; obtain ⟨q, hq, rfl⟩ := List.mem_map.mp hp; exact hnum q.1 q.2 hq)
+
 /-- **one element**: the encoder produces the same state for `v` and for its normal form -/
 theorem primitiveElement_norm (e : Enc) (hex : Enc.Exact e) (tag : Tag) (vr : VR) (len len' : Nat) (v : PValue)
     (hv : ValidFor e.ts.bigEndian vr v) (hf : FitsHeader e.ts vr (paddedValue e.ts.bigEndian vr v).length) :
@@ -209,11 +230,14 @@ theorem rec_norm_elem (ts : Syntax) (dict : Tag → Option VR) : ∀ (el : Elem)
   | .prim tag vr len v, h, e, hts, hex => by
     obtain ⟨_, _, hv, hf, _⟩ := h
     subst hts
+    have hnv : ValidFor e.ts.bigEndian vr (normValue e.ts.bigEndian vr v) := normValue_valid _ _ _ hv
     refine ⟨?_, ?_⟩
     · simp only [normElem, recElem]
+      rw [encodePrimitiveElement_valid e tag vr _ _ _ hnv, encodePrimitiveElement_valid e tag vr _ _ _ hv]
       exact (primitiveElement_norm e hex tag vr len _ v hv hf).symm
     · intro e' he'
       simp only [recElem] at he'
+      rw [encodePrimitiveElement_valid e tag vr _ _ _ hv] at he'
       obtain ⟨e1, h1, t1⟩ := primitiveElement_total e ⟨tag, vr, len⟩ v hv.2.1 hv.2.2.1 hf
       rw [h1] at he'; injection he' with he'; subst he'
       exact ⟨t1, primitiveElement_exact hex _ _ h1⟩
